@@ -80,6 +80,14 @@ def main():
                               allow_missing=[False, True], n_jobs=[1], props=P, extra=(), validate_every=40)
         cfg['thresholds'] = [1] if e == 'overlap_join' else [0.5]
         ck.e2('two-column-%s' % e, h_join.make(cfg))
+    # edit distance: tokenizer passed in set mode is restored; the shared default tokenizer is left as found
+    from harness import h_ed
+    ck.e2('ed-tokenizer-restored', h_ed.make(dict(entry='ed_join', nl=1, nr=2, lens=[0, 1], q=[2, 3], padding=[True],
+                                                  return_set=[False, True], taus=[1], comp_ops=['<='], missing='sym',
+                                                  allow_missing=[False, True], n_jobs=[1, 2], props=P)))
+    ck.e2('ed-default-tokenizer', h_ed.make(dict(entry='ed_join', nl=1, nr=2, lens=[0, 1], q=[2], padding=[True],
+                                                 return_set=[False], taus=[1], comp_ops=['<='], default_tok=True,
+                                                 n_jobs=[1, 2], props=P + ['C03'])))
     calls = [dict(entry='jaccard_join', threshold=0.5), dict(entry='cosine_join', threshold=0.5, n_jobs=2),
              dict(entry='dice_join', threshold=0.5, allow_missing=True),
              dict(entry='overlap_coefficient_join', threshold=0.5, n_jobs=2),
